@@ -3,7 +3,7 @@
 congestion controls)."""
 from __future__ import annotations
 
-from props.c07_core import Drv, Entity, P, R
+from props.c07_core import Drv, Entity, P, PI, R
 
 from happysimulator.components.deployment import (AutoScaler, CanaryDeployer, CanaryStage, ErrorRateEvaluator,
                                                   LatencyEvaluator, QueueDepthScaling, RollingDeployer, StepScaling,
@@ -44,9 +44,10 @@ class _AutoScalerDrv(_DeployBase):
 
     def build(self, cfg):
         self.fleet(cfg, n=1)
+        cooldown, interval = PI(1.0, 0.5)
         self.asc = AutoScaler("autoscaler", load_balancer=self.lb, server_factory=self.factory, policy=self.policy(),
-                              min_instances=1, max_instances=3, evaluation_interval=P(0.5), scale_out_cooldown=P(1.0),
-                              scale_in_cooldown=P(1.0))
+                              min_instances=1, max_instances=3, evaluation_interval=interval,
+                              scale_out_cooldown=cooldown, scale_in_cooldown=cooldown)
         return [*self.servers, self.lb, self.asc]
 
     def init(self):
@@ -76,19 +77,26 @@ class AutoScalerQueueDepthDrv(_AutoScalerDrv):
 
 class _CanaryDrv(_DeployBase):
     ops = ("request", "deploy")
+    concurrent = False
 
     def evaluator(self):
         return ErrorRateEvaluator(max_error_rate=0.5, threshold_multiplier=2.0)
 
     def build(self, cfg):
         self.fleet(cfg, n=2)
+        period, interval = PI(1.0, 0.5)
         self.cd = CanaryDeployer("canary", load_balancer=self.lb, server_factory=self.factory,
-                                 stages=[CanaryStage(0.25, P(1.0)), CanaryStage(1.0, P(1.0))],
-                                 metric_evaluator=self.evaluator(), evaluation_interval=P(0.5))
+                                 stages=[CanaryStage(0.25, period), CanaryStage(1.0, period)],
+                                 metric_evaluator=self.evaluator(), evaluation_interval=interval)
         return [*self.servers, self.lb, self.cd]
 
     def request(self, i, op):
-        if op == "deploy":
+        # one deployment at a time (a second deploy() while one is in progress is not a workload the deployer accepts;
+        # the concurrent-deploy patterns live in CanaryDeployerConcurrentDeploysDrv)
+        idle = (self.cd.state.status in ("idle", "completed", "rolled_back")
+                and self.cd.stats.deployments_started == getattr(self, "issued", 0))
+        if op == "deploy" and (self.concurrent or idle):
+            self.issued = getattr(self, "issued", 0) + 1
             return [self.cd.deploy()]
         return self.traffic(i)
 
@@ -103,6 +111,14 @@ class CanaryDeployerLatencyDrv(_CanaryDrv):
 
     def evaluator(self):
         return LatencyEvaluator(max_latency=0.1, threshold_multiplier=0.25)
+
+
+class CanaryDeployerConcurrentDeploysDrv(_CanaryDrv):
+    """Minority of contended patterns: deploy() issued again while a deployment is in progress / at the same instant."""
+    covers = ("CanaryDeployer",)
+    ops = ("deploy",)
+    concurrent = True
+    cfgs = ("zero", "eq")
 
 
 class _SickServer(Entity):
@@ -133,7 +149,10 @@ class RollingDeployerDrv(_DeployBase):
         return [*self.servers, self.lb, self.rd]
 
     def request(self, i, op):
-        if op == "deploy":
+        idle = (self.rd.state.status != "in_progress"
+                and self.rd.stats.deployments_started == getattr(self, "issued", 0))
+        if op == "deploy" and idle:
+            self.issued = getattr(self, "issued", 0) + 1
             return [self.rd.deploy()]
         return self.traffic(i)
 
@@ -326,7 +345,7 @@ class TCPConnectionBBRDrv(_TCPDrv):
 
 
 DRIVERS = [AutoScalerTargetUtilDrv, AutoScalerStepDrv, AutoScalerQueueDepthDrv, CanaryDeployerErrorRateDrv,
-           CanaryDeployerLatencyDrv, RollingDeployerDrv, RollingDeployerSickInstanceDrv, CPUSchedulerFairShareDrv,
+           CanaryDeployerLatencyDrv, CanaryDeployerConcurrentDeploysDrv, RollingDeployerDrv, RollingDeployerSickInstanceDrv, CPUSchedulerFairShareDrv,
            CPUSchedulerPriorityDrv, DiskIOHDDDrv, DiskIOSSDDrv, DiskIONVMeDrv, DNSResolverDrv,
            GarbageCollectorSTWDrv, GarbageCollectorConcurrentDrv, GarbageCollectorGenerationalDrv, PageCacheDrv,
            TCPConnectionAIMDDrv, TCPConnectionCubicDrv, TCPConnectionBBRDrv]
